@@ -55,6 +55,8 @@ def run(ctx):
     rep.rule("C06.R4", "W_N = g_N_dot_u.T and W_F = gamma_F_u.T by construction", 4)
     rep.rule("C06.R7", "two-body block typing of Sphere2Sphere's derivative blocks (K9)", 15)
     rep.rule("C06.R8", "relative polarity of the two spheres' terms in the normal-gap chain and in the slip chain (K9)", 14)
+    rep.rule("C06.R9", "all point-protocol calls of a contact on one body name the same material point (xi, B_r_CP)", 6)
+    protocol.point_argument_agreement(ctx, "C06.R9", [(ci.qual, ci.rel, ci.node) for ci in contact_classes(ctx)])
     rep.rule("C06.R6", "Leibniz image of the primal's factor monomials equals the derivative routine's monomials (K10)", 15)
     sm = sysmodel.SystemModel(ctx)
     sysmodel.codefinition(ctx, sm, "C06.R1", family=lambda p, m: sysmodel.is_contact(m), require_live=False)
@@ -182,6 +184,10 @@ MUTANTS += [
     dict(id="c06-k9-3", what="Sphere2Sphere.gamma_F_u: lever arm of sphere 2 loses its minus sign (r_C2P2 = -radius2 n)", file=S2S,
          old="        J_P2 = self.J_C2(t, q) - ax2skew(-self.radius2 * n) @ self.J2_R(t, q)\n\n        gamma_F_u = np.zeros(",
          new="        J_P2 = self.J_C2(t, q) - ax2skew(self.radius2 * n) @ self.J2_R(t, q)\n\n        gamma_F_u = np.zeros(", expect="C06.R8"),
+]
+MUTANTS += [
+    dict(id="c06-r9-1", canary=True, what="Sphere2Plane: J_P evaluated without the body-fixed offset of the sphere centre", file=S2P,
+         old="        self.J_P = lambda t, q: self.subsystem.J_P(t, q, xi=self.xi, B_r_CP=self.B_r_CP)", new="        self.J_P = lambda t, q: self.subsystem.J_P(t, q, xi=self.xi)", expect="C06.R9"),
 ]
 NEUTRAL = [
     dict(id="c06-n2", canary=True, what="lever arms hoisted into locals (the seeded fault's neutral twin)", file=S2S,
